@@ -122,6 +122,6 @@ def segs (bs : Bytes) : List Bytes := (splitSlash bs).filter (fun s => !s.isEmpt
 abbrev Path := List Bytes
 
 /-- the file-system location a path *string* denotes -/
-def resolve (s : Str) : Path := segs (utf8 s)
+def pathResolve (s : Str) : Path := segs (utf8 s)
 
 end HtmlVerif
